@@ -3,7 +3,7 @@ import re
 from .cxx2c import Profile, StringTable
 
 TYPES = {'QString': 'qstr', 'QStringView': 'qstr', 'QLatin1String': 'qstr', 'QDomElement': 'qdom', 'QDomNode': 'qdom',
-         'QRegularExpression': 'qstr', 'QRegularExpressionMatch': 'qrematch', 'QChar': 'qstr'}
+         'QDomNodeList': 'qnodelist', 'QRegularExpression': 'qstr', 'QRegularExpressionMatch': 'qrematch', 'QChar': 'qstr'}
 # QT_USE_QSTRINGBUILDER: a + b on strings has a QStringBuilder<...> type; it is the (opaque) concatenation
 TYPE_PATTERNS = [(re.compile(r'QStringBuilder<.*>(::ConvertTo)?'), 'qstr'), (re.compile(r'char16_t\[\d+\]'), 'qstr')]
 
